@@ -5,6 +5,7 @@ import (
 	"io"
 	"math"
 	"net"
+	"net/url"
 	"reflect"
 	"strconv"
 	"strings"
@@ -388,10 +389,15 @@ func checkRaw(c RawCase) vk.Verdict {
 		keys := map[string]bool{}
 		distinct := true
 		for _, p := range pairs {
+			// names are compared as the server sees them: percent-decoded ("%69" is the key "i"), '+' a blank
+			if d, err := url.QueryUnescape(p); err == nil {
+				p = d
+			}
 			k := p
 			if i := strings.IndexAny(p, "=[."); i >= 0 {
 				k = p[:i] // (components of one nested name count as one key)
 			}
+			k = strings.ToLower(k)
 			if keys[k] {
 				distinct = false
 			}
